@@ -8,6 +8,7 @@ mod frag;
 mod value;
 mod wire;
 mod router;
+mod sched;
 
 fn main() {
     let args: Vec<String> = std::env::args().collect();
@@ -19,6 +20,7 @@ fn main() {
         "frag" => frag::run(&args[2..]),
         "wire" => wire::run(&args[2..]),
         "router" => router::run(&args[2..]),
+        "sched" => sched::run(&args[2..]),
         s => {
             eprintln!("unknown scenario {}", s);
             std::process::exit(2);
